@@ -373,7 +373,8 @@ mod p8 {
     pub const MORE_THAN_65535_RESULTS: usize = 17;
     pub const CANONICAL_FULL_BLOCK: usize = 18;
     pub const BAD_COBS_REJECTED: usize = 19;
-    pub const NAMES: [&str; 20] = [
+    pub const DEEP_VALUE_DELIVERED: usize = 20;
+    pub const NAMES: [&str; 21] = [
         "segment_of_exactly_N_bytes",
         "unterminated_tail_of_exactly_N_bytes",
         "chunk_with_3_or_more_sentinels",
@@ -394,6 +395,7 @@ mod p8 {
         "more_than_65535_results_from_one_accumulator",
         "frame_in_the_cobs_paper_convention_ending_with_a_full_block_delivered",
         "segment_that_is_not_cobs_rejected",
+        "value_nested_64_to_300_levels_deep_delivered",
     ];
 }
 
@@ -620,6 +622,9 @@ fn c08_history<const N: usize>(
                         if gb.len() >= 256 && crate::refenc::ends_on_block_boundary(&gb[..gb.len() - 1]) {
                             out.probe(p8::CANONICAL_FULL_BLOCK);
                         }
+                        if matches!(v, Val::Opt(Some(_))) && nesting_depth(&t.shape) >= 32 && call.kind == Kind::Success {
+                            out.probe(p8::DEEP_VALUE_DELIVERED);
+                        }
                         if call.kind != Kind::Success || call.data.as_ref() != Some(v) {
                             fail!(
                                 "well-formed-frame-delivered",
@@ -827,9 +832,10 @@ fn plain_budget(n: usize) -> Option<usize> {
 
 fn valid_frame(rng: &mut Rng, cfg: &GenCfg, shape: &Shape, max_frame: usize) -> Option<(Vec<u8>, Val)> {
     let pb = plain_budget(max_frame)?;
+    let deep = nesting_depth(shape) >= 32;
     for _ in 0..6 {
         let mut budget = pb.min(cfg.budget) as isize;
-        let val = shape::gen_val(rng, shape, &mut budget);
+        let val = if deep { deep_val(rng, shape) } else { shape::gen_val(rng, shape, &mut budget) };
         let m = Msg { shape: shape.clone(), val };
         let f = cobs_frame(&m.ref_encode());
         if f.len() <= max_frame {
@@ -966,7 +972,61 @@ fn pick_n(rng: &mut Rng) -> usize {
     }
 }
 
+/// A target type nested `k` levels deep (options, every third level a one-element tuple) around a
+/// `u8`: k + 1 - k/3 bytes on the wire at most.
+fn deep_shape(k: usize) -> Shape {
+    let mut s = Shape::U8;
+    for i in 0..k {
+        s = if i % 3 == 2 { Shape::Tuple(vec![s]) } else { Shape::Option(Box::new(s)) };
+    }
+    s
+}
+
+fn nesting_depth(s: &Shape) -> usize {
+    let mut d = 0;
+    let mut cur = s;
+    loop {
+        match cur {
+            Shape::Option(inner) => cur = inner,
+            Shape::Tuple(f) if f.len() == 1 => cur = &f[0],
+            _ => return d,
+        }
+        d += 1;
+    }
+}
+
+/// a value of a `deep_shape`: `Some` all the way down (or down to a `None` at a chosen level)
+fn deep_val(rng: &mut Rng, s: &Shape) -> Val {
+    let depth = nesting_depth(s);
+    let stop = match rng.below(4) {
+        0 | 1 => depth + 1, // never: the innermost u8 is reached
+        2 => depth.saturating_sub(1),
+        _ => rng.range(depth / 2, depth),
+    };
+    fn go(rng: &mut Rng, s: &Shape, level: usize, stop: usize) -> Val {
+        match s {
+            Shape::Option(inner) => {
+                if level >= stop {
+                    Val::Opt(None)
+                } else {
+                    Val::Opt(Some(Box::new(go(rng, inner, level + 1, stop))))
+                }
+            }
+            Shape::Tuple(f) if f.len() == 1 => Val::Seq(vec![go(rng, &f[0], level + 1, stop)]),
+            _ => Val::Uint(rng.below(256) as u128),
+        }
+    }
+    go(rng, s, 0, stop)
+}
+
 fn target_shape(rng: &mut Rng, cfg: &GenCfg, n: usize) -> Shape {
+    // now and then a type nested far deeper than the generator's usual four levels
+    if n >= 70 && !crate::runner::small() && rng.chance(1, 30) {
+        let ks: Vec<usize> = [64usize, 100, 127, 128, 129, 200, 300].iter().copied().filter(|k| k + 3 <= n).collect();
+        if !ks.is_empty() {
+            return deep_shape(*rng.pick(&ks));
+        }
+    }
     match rng.below(8) {
         0 => Shape::Bytes,
         1 => Shape::Str,
@@ -1357,8 +1417,16 @@ fn gen_long_with(rng: &mut Rng, overflow: bool, count: usize) -> AccTrace {
         _ => Shape::Tuple(vec![Shape::U8, Shape::Bool]),
     };
     let mut segments = Vec::with_capacity(count);
+    // a third of the long histories consist of one class of result only: hundreds (or tens of
+    // thousands) of failures in a row without a delivered frame in between
+    let streak = match rng.below(9) {
+        0 => Some(1u64),                // garbage that fits: a deserialisation error each
+        1 => Some(if overflow { 2 } else { 0 }), // over-long garbage / empty frames
+        2 => Some(0),
+        _ => None,
+    };
     for _ in 0..count {
-        let seg = match rng.below(12) {
+        let seg = match streak.unwrap_or_else(|| rng.below(12)) {
             0 => Seg { kind: SegKind::Empty, bytes: vec![0], expect: None },
             1 => {
                 let l = rng.range(1, n);
